@@ -366,6 +366,9 @@ pub trait Val: RefCnt + Clone + Send + Sync + 'static {
     /// Ledger: the harness now holds / gives up a guard.
     fn note_guard(&self, d: isize);
     fn set_drop_action(&self, _a: u8) {}
+    /// Ledger, by address: for a value the harness knows to be alive but has no handle on (the
+    /// value retained inside a `Cache`).
+    fn note_owner_addr(_addr: usize, _d: isize) {}
 }
 
 impl<const K: u8> Val for Option<Tp<K>> {
@@ -410,6 +413,11 @@ impl<const K: u8> Val for Option<Tp<K>> {
             t.set_drop_action(a)
         }
     }
+    fn note_owner_addr(addr: usize, d: isize) {
+        if addr != 0 {
+            unsafe { &*(addr as *const Obj) }.owners.fetch_add(d, Relaxed);
+        }
+    }
 }
 
 impl<const K: u8> Val for Tp<K> {
@@ -438,6 +446,11 @@ impl<const K: u8> Val for Tp<K> {
     }
     fn set_drop_action(&self, a: u8) {
         Tp::set_drop_action(self, a)
+    }
+    fn note_owner_addr(addr: usize, d: isize) {
+        if addr != 0 {
+            unsafe { &*(addr as *const Obj) }.owners.fetch_add(d, Relaxed);
+        }
     }
 }
 
